@@ -41,6 +41,7 @@ CONSTANTS Dev,         \* enabled deviations
           Names,       \* entry names: set of component sequences (may contain "..", ".")
           Targets,     \* symbolic link targets: <<"rel"|"abs", c1, c2, ...>>
           MaxEntries,
+          ModeNames,   \* names for which a directory entry with a non-default mode ("dirc") is enumerated
           Only,        \* {} or a set of archives: only their prefixes are extracted (classification of observed runs)
           \* ---- part A
           Trees,       \* "enum": Init enumerates trees; otherwise unused
@@ -94,7 +95,7 @@ In(p) == Within(p) \/ ("DevPrefixNoSeparator" \in Dev /\ IsPrefix(<<"w", "ox">>,
 Entries ==
   {[kind |-> "dir",  name |-> nm, target |-> <<>>] : nm \in IF "dir" \in Kinds THEN Names ELSE {}} \cup
   \* "dirc": a directory entry with a non-default mode (0750)
-  {[kind |-> "dirc", name |-> nm, target |-> <<>>] : nm \in IF "dirc" \in Kinds THEN Names ELSE {}} \cup
+  {[kind |-> "dirc", name |-> nm, target |-> <<>>] : nm \in IF "dirc" \in Kinds THEN Names \cap ModeNames ELSE {}} \cup
   {[kind |-> "file", name |-> nm, target |-> <<>>] : nm \in IF "file" \in Kinds THEN Names ELSE {}} \cup
   {[kind |-> "sym",  name |-> nm, target |-> t] : nm \in IF "sym" \in Kinds THEN Names ELSE {}, t \in Targets} \cup
   {[kind |-> "hard", name |-> nm, target |-> t] : nm \in IF "hard" \in Kinds THEN Names ELSE {}, t \in Names}
